@@ -227,6 +227,12 @@ func NewBlockResultsMeta(results *consensus.BlockResults) (*BlockResultsMeta, er
 	if err := cbor.Unmarshal(results.Meta, &meta); err != nil {
 		return nil, fmt.Errorf("malformed block results metadata: %w", err)
 	}
+	for _, rs := range meta.TxsResults {
+		// A CBOR null decodes into a nil transaction result which consumers dereference.
+		if rs == nil {
+			return nil, fmt.Errorf("malformed block results metadata: missing transaction result")
+		}
+	}
 
 	return &meta, nil
 }
